@@ -3,6 +3,8 @@ import contextlib
 import copy
 import io
 
+import numpy as np
+
 from mc import core, netalpha as na
 from mc import c_nets, c_solvers as cs
 
@@ -97,6 +99,12 @@ def run_case(case):
     ttoks = cs.topo_tokens(facts) if facts else ["no_pq_pv_bus"]
     qualifies = bool(facts) and facts["one_slack_per_island"] and facts["max_loops"] <= MAX_LOOPS_WEAK
     nh = core.dhash([case["base"], case["devs"]])
+    gen_toks = []
+    if qlim and len(net0.gen):
+        g = net0.gen[net0.gen.in_service & ~net0.gen.slack]
+        if len(g) and bool((np.isclose(g.max_q_mvar.values.astype(float), 0.) | np.isclose(g.min_q_mvar.values.astype(float), 0.)).any()):
+            # recorded defect: runpf_pypower._run_ac_pf_with_qlims_enforced never limits a gen one of whose limits is exactly 0
+            gen_toks.append("gen_zero_qlimit")
     scratch = {}
     for c in case["configs"]:
         # a fresh deep copy per run; a copy on which pandapower refused to start (NotImplementedError is raised while
@@ -115,10 +123,12 @@ def run_case(case):
         if oc == "ok":
             alt = cs.snapshot(net)
             bad = cs.compare(snap, alt, c["alg"])
-            if bad and c["init"] == "flat" and facts and facts["shift"] and cs.other_valid_root(ref, net):
-                # flat start is > 90 degrees away from the solution behind a phase shifting transformer (documented caveat of
-                # init="flat"): Newton converges to another exact root of the SAME equations (checked with the reference's
-                # own Ybus/Sbus) - low-voltage branch or flipped angle at a PV bus; two valid solutions, not a defect
+            if bad and c["init"] in ("flat", "results") and facts and facts["shift"] and \
+                    cs.other_valid_root(ref, net, spec_from_alt=qlim):
+                # a start vector > 90 degrees away from the solution behind a phase shifting transformer (documented caveat
+                # of init="flat"; with init="results" the auxiliary bus of a line ending at an out-of-service bus is started
+                # flat as well): Newton converges to another exact root of the SAME equations (checked with the reference's
+                # own Ybus) - low-voltage branch or flipped angle at a PV bus; two valid solutions, not a defect
                 count("other_valid_solution_flat_start_phase_shift")
                 continue
             out["sig"].append("%s|%s" % (nh, cs.cfg_name(c)))
@@ -126,7 +136,7 @@ def run_case(case):
                 out["violations"].append(core.violation(
                     "agreement", {"config": cs.cfg_name(c), "what": what, "deviation": dev, "tolerance": tol,
                                   "where": where, "facts": facts},
-                    tokens=toks + ["what=" + what.split(".")[0]], klass=c["alg"] + "/" + what.split(".")[0]))
+                    tokens=toks + ["what=" + what.split(".")[0]] + gen_toks, klass=c["alg"] + "/" + what.split(".")[0]))
                 break  # one violation per (net, config): the first table that disagrees
         elif c["alg"] == "bfsw" and not c["ls2g"] and qualifies and oc not in ("NotImplementedError", "UserWarning"):
             clause = "bfsw_no_solution" if oc in ("LoadflowNotConverged", "not_converged") else "bfsw_internal_error"
